@@ -188,13 +188,15 @@ class Run:
         explicit = self.mode in ("regular", "upstream_http", "upstream_https")
         if k == "plain":
             h = HOSTS[op[1]]
+            port = op[2] if len(op) > 2 else 80  # the same host:port may be asked for with both schemes
             if explicit:
-                self._get(f"http://{h}/r{{n}}", h)
+                self._get(f"http://{h}:{port}/r{{n}}", f"{h}:{port}")
             else:
                 self._get("/r{n}", h)
         elif k == "abs_https":
             h = HOSTS[op[1]]
-            self._get(f"https://{h}/r{{n}}", h)
+            port = op[2] if len(op) > 2 else 443
+            self._get(f"https://{h}:{port}/r{{n}}", f"{h}:{port}")
         elif k == "connect":
             h = HOSTS[op[1]]
             port = 443 if op[2] == "tls" else 80
@@ -269,16 +271,18 @@ class Check(core.PropertyCheck):
         return {}
 
     def model_constants(self, tier):
-        return {"Modes": frozenset(ALL_MODES), "MaxSteps": 3 if tier == "quick" else 4, "Hosts": frozenset({1, 2})}
+        # Ports: every host:port is requested with both schemes (https then http on :443, http then https on :80, ...)
+        return {"Modes": frozenset(ALL_MODES), "MaxSteps": 3 if tier == "quick" else 4,
+                "Hosts": frozenset({1}) if tier == "quick" else frozenset({1, 2}), "Ports": frozenset({80, 443})}
 
     @staticmethod
     def _ops(beh):
         ops = []
         for name, args, _st in beh[1:]:
             if name == "Plain":
-                ops.append(["plain", args[0]])
+                ops.append(["plain", args[0], args[1]])
             elif name == "AbsHttps":
-                ops.append(["abs_https", args[0]])
+                ops.append(["abs_https", args[0], args[1]])
             elif name == "Connect":
                 ops.append(["connect", args[0], args[1]])
             elif name == "StartTls":
@@ -290,9 +294,8 @@ class Check(core.PropertyCheck):
     def scenarios(self, ctx, models):
         g = models[0].graph
         rng = random.Random(ctx.seed + 24)
-        behs = g.all_paths(max_depth=3 if ctx.quick else 4)
-        if ctx.quick and len(behs) > 900:
-            behs = g.edge_cover(ctx.rng, max_len=6, tail=2) + rng.sample(behs, 500)
+        # every transition of the graph at least once, plus random paths
+        behs = g.edge_cover(ctx.rng, max_len=6, tail=2) + g.random_walks(ctx.rng, 500 if ctx.quick else 6000, 5)
         for b in behs:
             st0 = b[0][2]
             ops = self._ops(b)
@@ -301,6 +304,14 @@ class Check(core.PropertyCheck):
             sc = {"mode": st0["mode"], "auth": bool(st0["auth"]), "eager": bool(st0["eager"]), "ops": ops,
                   "swp": rng.random() < 0.25}
             yield core.Scenario(sc, predicted=core.predicted_events(b) + [{"k": "end"}], source="model")
+        # fixed suite: the same host:port with both schemes, both orders, on one client connection
+        for mode in ("upstream_http", "upstream_https", "regular"):
+            for port in (80, 443):
+                for first, second in (("abs_https", "plain"), ("plain", "abs_https")):
+                    for eager in (False, True):
+                        yield core.Scenario({"mode": mode, "auth": True, "eager": eager, "swp": False,
+                                             "ops": [[first, 1, port], [second, 1, port], [first, 1, port]]},
+                                            source="suite")
         # beyond the model's bounds: longer sequences, more hosts are not needed for this property; what is added here
         # are option variations the model does not know (they must not move the credentials)
         variations = [{"keep_host_header": True}, {"http_connect_send_host_header": False}, {"normalize_outbound_headers": False},
@@ -314,9 +325,9 @@ class Check(core.PropertyCheck):
                 while len(ops) < n:
                     x = rng.random()
                     if x < 0.35:
-                        ops.append(["plain", rng.choice([1, 2])])
+                        ops.append(["plain", rng.choice([1, 2]), rng.choice([80, 443])])
                     elif x < 0.6:
-                        ops.append(["abs_https", rng.choice([1, 2])])
+                        ops.append(["abs_https", rng.choice([1, 2]), rng.choice([80, 443])])
                     else:
                         ops.append(["connect", rng.choice([1, 2]), rng.choice(["tls", "plain"])])
                         ops += [["inner"]] * rng.randint(1, 3)
@@ -325,7 +336,7 @@ class Check(core.PropertyCheck):
                 if rng.random() < 0.5:
                     ops = [["start_tls"]] + [["inner"]] * rng.randint(1, 4)
                 else:
-                    ops = [["plain", 1]] * rng.randint(1, 4)
+                    ops = [["plain", 1, 80]] * rng.randint(1, 4)
             yield core.Scenario({"mode": mode, "auth": rng.random() < 0.8, "eager": rng.random() < 0.4, "ops": ops,
                                  "swp": rng.random() < 0.3, "options": rng.choice(variations)}, source="random")
 
